@@ -570,6 +570,21 @@ func init() {
 					if a != 0 || !(math.Abs(ctr[0]-sx/float64(n)) <= 1e-9 && math.Abs(ctr[1]-sy/float64(n)) <= 1e-9) {
 						c.Fail("", "multi-point centroid is not the mean of the points", map[string]interface{}{"points": sv(mpt), "got": sv(ctr)})
 					}
+					// one point: its own centroid, no area, no length; points have no length and no area in any number
+					{
+						p := mpt[0]
+						pc, pa := planar.CentroidArea(p)
+						c.Evals(4)
+						if pc != p || pa != 0 || planar.Area(p) != 0 || planar.Area(mpt) != 0 {
+							c.Fail("", "a point (or multi point) does not have itself as centroid and area 0", map[string]interface{}{"point": sv(p), "centroid": sv(pc), "centroid_area": pa, "area": planar.Area(p), "multi_point_area": planar.Area(mpt)})
+						}
+						if l1, l2 := planar.Length(p), planar.Length(mpt); l1 != 0 || l2 != 0 {
+							c.Fail("", "the length of a point or multi point is not 0", map[string]interface{}{"point": l1, "multi_point": l2})
+						}
+						if l := planar.Length(orb.Collection{p, mpt, orb.LineString{{0, 0}, {3, 4}}}); l != 5 {
+							c.Fail("", "the length of a collection is not the sum over its members (points count 0)", map[string]interface{}{"got": l, "want": 5})
+						}
+					}
 					dq := orb.Point{float64(r.Range(-60, 60)), float64(r.Range(-60, 60))}
 					gd, gi := planar.DistanceFromWithIndex(mpt, dq)
 					best := math.Inf(1)
@@ -725,6 +740,37 @@ func init() {
 					}
 					c.Nontrivial(h.Mix(hashPts(mpt), uint64(nl), hashPts(mls[0])))
 					c.Sample(map[string]interface{}{"multipoint": sv(mpt), "multilinestring": sv(mls)})
+				},
+			},
+			{
+				// every segment between two points of the 5x5 integer grid [-2,2]^2 (degenerate ones included) against every
+				// query point of the 7x7 grid [-3,3]^2, and the same segment as a two-vertex line string and as the only edge
+				// that matters of a ring: unit steps, axis-parallel and diagonal segments, queries at, beside and beyond the ends
+				Name: "grid-segments-exhaustive", Count: h.Fixed(625, 625), Exhaustive: h.Always,
+				Run: func(c *h.Ctx, idx uint64, r *h.Rand) {
+					a := P{float64(int(idx)%5 - 2), float64(int(idx)/5%5 - 2)}
+					b := P{float64(int(idx)/25%5 - 2), float64(int(idx)/125%5 - 2)}
+					for qx := -3; qx <= 3; qx++ {
+						for qy := -3; qy <= 3; qy++ {
+							q := P{float64(qx), float64(qy)}
+							want2 := exact.F(exact.Dist2PointSeg(q, a, b))
+							got2 := planar.DistanceFromSegmentSquared(orb.Point{a[0], a[1]}, orb.Point{b[0], b[1]}, orb.Point{q[0], q[1]})
+							got := planar.DistanceFromSegment(orb.Point{a[0], a[1]}, orb.Point{b[0], b[1]}, orb.Point{q[0], q[1]})
+							ls := planar.DistanceFrom(orb.LineString{{a[0], a[1]}, {b[0], b[1]}}, orb.Point{q[0], q[1]})
+							c.Evals(3)
+							if !(math.Abs(got2-want2) <= 1e-12*(1+want2)) || !(math.Abs(got-math.Sqrt(want2)) <= 1e-12*(1+want2)) || !(math.Abs(ls-math.Sqrt(want2)) <= 1e-12*(1+want2)) {
+								c.Fail("", "distance from a grid segment is not the exact point-segment distance", map[string]interface{}{"a": a, "b": b, "point": q, "squared": got2, "distance": got, "as_line_string": ls, "want_squared": want2})
+								return
+							}
+							if want2 == 0 && (got2 != 0 || got != 0 || ls != 0) {
+								c.Fail("", "distance from a segment is not exactly zero for a lattice point on it", map[string]interface{}{"a": a, "b": b, "point": q, "squared": got2})
+								return
+							}
+						}
+					}
+					if a != b {
+						c.Nontrivial(h.Mix(idx, 77))
+					}
 				},
 			},
 			{
